@@ -396,8 +396,51 @@ pub fn try_stmt(g: &mut Gen, out: &mut Vec<Stmt>) {
     out.push(Stmt::new(StmtKind::Try(body, catch, fin)));
 }
 
+/// `Fiber.yield` where there may be no fiber to yield from: the rejected yield must leave the
+/// caller's variables and stack untouched.
+fn yield_outside(g: &mut Gen, out: &mut Vec<Stmt>) {
+    g.label_pub("yield_outside_fiber");
+    let f = g.fresh_pub("yo");
+    let e = g.fresh_pub("e");
+    let arg = if g.rd.chance(2, 3) { vec![Expr::var("val")] } else { vec![] };
+    let body = vec![
+        Stmt::var("keep", Some(Expr::str("keep"))),
+        Stmt::var("count", Some(Expr::Num(10.0))),
+        Stmt::var("got", Some(Expr::str("not resumed"))),
+        Stmt::new(StmtKind::Try(
+            vec![Stmt::expr(Expr::assign_var("got", Expr::invoke(Expr::var("Fiber"), "yield", arg)))],
+            Some((e.clone(), vec![Stmt::print(Expr::callv("type", vec![Expr::var(&e)]))])),
+            None,
+        )),
+        Stmt::print(Expr::VecLit(vec![Expr::var("keep"), Expr::var("count"), Expr::var("got"), Expr::var("val")])),
+        Stmt::new(StmtKind::Return(Some(Expr::var("keep")))),
+    ];
+    out.push(Stmt::new(StmtKind::Fn(fdef(&f, FnKind::Function, vec!["val".into()], body))));
+    g.declare_pub(&f, Kind::Fn(1), false);
+    // from the module level: rejected; from inside a fiber: a real yield
+    out.push(Stmt::print(Expr::callv(&f, vec![Expr::Num(1.0)])));
+    if g.rd.flag() {
+        let fb = g.fresh_pub("fb");
+        let lam = Expr::Lambda(Rc::new(FnDef {
+            name: RefCell::new(g.next_lambda_name()),
+            params: vec![],
+            body: Body::Expr(Box::new(Expr::callv(&f, vec![Expr::Num(2.0)]))),
+            kind: FnKind::Lambda,
+        }));
+        out.push(Stmt::var(&fb, Some(Expr::invoke(Expr::var("Fiber"), "new", vec![lam]))));
+        g.declare_pub(&fb, Kind::Fiber, false);
+        out.push(Stmt::print(Expr::invoke(Expr::var(&fb), "call", vec![])));
+        out.push(Stmt::print(Expr::invoke(Expr::var(&fb), "call", vec![Expr::str("resumed")])));
+        out.push(Stmt::print(Expr::invoke(Expr::var(&fb), "has_finished", vec![])));
+    }
+}
+
 /// A fiber with a generated body and a driver sequence of calls.
 pub fn fiber_stmts(g: &mut Gen, out: &mut Vec<Stmt>) {
+    if g.rd.chance(1, 6) {
+        yield_outside(g, out);
+        return;
+    }
     g.label_pub("fiber");
     let fb = g.fresh_pub("fb");
     let arity = g.rd.below(2);
